@@ -517,7 +517,8 @@ fn convert_intensity(p: &mut Point) {
 struct Range {
     min: f64,
     max: f64,
-    inv_range: f64,
+    scale: f64,
+    range: f64,
 }
 
 impl Range {
@@ -587,18 +588,17 @@ impl Range {
         if !min.is_finite() || !max.is_finite() || min > max {
             Error::invalid(format!("Found invalid range: min={min}, max={max}"))?;
         }
-        // The range is calculated with halved limits to avoid an overflow for very big ranges.
-        // An empty range (min=max) has an inverse of zero, which normalizes all values to zero.
-        let half_range = max * 0.5 - min * 0.5;
-        let inv_range = if half_range > 0.0 {
-            1.0 / half_range
+        // The range is calculated with halved limits if it would overflow otherwise
+        let (scale, range) = if (max - min).is_finite() {
+            (1.0, max - min)
         } else {
-            0.0
+            (0.5, max * 0.5 - min * 0.5)
         };
         Ok(Self {
             min,
             max,
-            inv_range,
+            scale,
+            range,
         })
     }
 
@@ -708,8 +708,13 @@ impl Range {
 
     #[inline]
     fn normalize(&self, value: f64) -> f32 {
+        // An empty range (min=max) normalizes all values to zero
+        if self.range <= 0.0 {
+            return 0.0;
+        }
         let clamped = value.clamp(self.min, self.max);
-        let normalized = (clamped * 0.5 - self.min * 0.5) * self.inv_range;
+        // A division is required, the inverse of an extremely small range is not finite
+        let normalized = (clamped * self.scale - self.min * self.scale) / self.range;
         normalized.clamp(0.0, 1.0) as f32
     }
 }
